@@ -746,56 +746,6 @@ func allocFedByRecv(al *ssa.Alloc, rec func(ssa.Value) bool) bool {
 
 func differentFields(a, b *commOp) bool { return a.Class.String() != b.Class.String() }
 
-// checkNoRenderAfterError: in the container loop, from every edge on which a render call
-// returned a non-nil error, no further render call is reachable.
-func checkNoRenderAfterError(w *World, r *Report, rule string) {
-	cont := w.containerLoop()
-	render := w.renderFn()
-	if cont == nil || render == nil {
-		r.Unresolved("anchor", "container loop / render", "not found")
-		return
-	}
-	n := 0
-	for _, b := range cont.Blocks {
-		for _, in := range b.Instrs {
-			c, ok := in.(*ssa.Call)
-			if !ok || c.Call.StaticCallee() != render {
-				continue
-			}
-			n++
-			construct := fmt.Sprintf("render call #%d in container loop", n)
-			// the error result must be tested right away
-			ifi, ok := b.Instrs[len(b.Instrs)-1].(*ssa.If)
-			var errSucc *ssa.BasicBlock
-			if ok {
-				if bin, ok := ifi.Cond.(*ssa.BinOp); ok && (bin.Op == token.NEQ || bin.Op == token.EQL) && bin.X == ssa.Value(c) && isNilConst(bin.Y) {
-					if bin.Op == token.NEQ {
-						errSucc = b.Succs[0]
-					} else {
-						errSucc = b.Succs[1]
-					}
-				}
-			}
-			if errSucc == nil {
-				r.Undecided(rule, construct, w.instrPos(in), "the error result of render is not tested in the calling block")
-				continue
-			}
-			bad := ""
-			_, ok2 := w.absExplore(cont, errSucc, b, map[ssa.Value]absVal{c: absYes}, 0, func(x ssa.Instruction, st *absState) {
-				if c2, ok := x.(*ssa.Call); ok && c2.Call.StaticCallee() == render {
-					bad = "render (" + w.instrPos(x) + ") is reachable after a render error: the abandon channel would be closed twice and frames written after the error"
-				}
-			})
-			if !ok2 {
-				r.Undecided(rule, construct, w.instrPos(in), "abstract state cap")
-				continue
-			}
-			r.Check(bad == "", rule, construct, w.instrPos(in), "no render reachable from the error edge (inboxes nil-ed / loop left)", bad)
-		}
-	}
-	r.Floor(rule, 2, "render calls in the container loop (refresh arm, final loop)")
-}
-
 // checkHeapTable: E9(a) — request constructors vs handler arms.
 func checkHeapTable(w *World, r *Report, rule string) {
 	loop, arms, _ := w.heapArms()
